@@ -43,6 +43,9 @@ type jLifeDevice struct {
 	// stays connected for this many ms before its events are fed: whatever the LED loop does about the failing requests, key
 	// events must still be processed and the device must still terminate promptly
 	ServerDiesMs int `json:"server_dies_ms"`
+	// SlowMs > 0: the OpenRGB server answers the controller queries (count, data) this many ms late; together with EarlyMs the event stream
+	// ends while such a query is in flight
+	SlowMs int `json:"slow_ms"`
 }
 
 type jLifeScenario struct {
@@ -102,6 +105,7 @@ func runLifeDevice(c jLifeDevice, shared *config.DeviceConfig) (res jLifeDevResu
 			return
 		}
 		defer srv.close()
+		srv.delay = time.Duration(c.SlowMs) * time.Millisecond
 		port = srv.port
 	}
 	devCfg := config.DeviceConfig{ConfigFile: "verif", ConfigType: "user"}
